@@ -2,6 +2,7 @@
    * sptenmat(subs, vals, rdims, cdims, tshape, copy=False) (pyttb/sptenmat.py): the argument checks run, the arguments are
      stored UNCHANGED (no unique / accumulate / nonzero step; empty vals give empty subs);
    * tenmat(..., copy=False): same checks and same stored matrix as copy=True (Model/C01Unique.v tm_ctor) — `tm_ctor_nocopy`;
+   * ktensor.full with the rank-0 branch of /repo d9f07bf (ktensor_full_code);
    * tensor.double(): the data array; ktensor.double / ttensor.double / sumtensor.double = full().double();
    * ktensor.to_tenmat = full().to_tenmat(rdims, cdims, cdims_cyclic);
    * ttensor.full() with a SPARSE core: `core.ttm(factor_matrices)` = sptensor.ttm in mode 0 (to_sptenmat(rdims=[0], "t"),
@@ -35,13 +36,20 @@ Definition tm_ctor_nocopy (data : option (dense V)) (rd cd : option (list nat)) 
   tm_ctor data rd cd ts.
 
 (* ---------------------------------------------------------------- double() aliases, ktensor.to_tenmat *)
+(* ktensor.full as the code is since /repo d9f07bf (fourth wave): `if self.ncomponents == 0: return tensor(zeros(shape))`
+   comes first (khatrirao cannot infer its row count from matrices without columns), then the single-mode branch and the
+   min_split_dims route of Model/C01Conv.v ktensor_full_impl *)
+Definition dense_zeros (s : shape) : dense V := mkDense s (repeat v0 (size s)).
+Definition ktensor_full_code (K : ktensor V) : option (dense V) :=
+  if krank K =? 0 then Some (dense_zeros (kshape K)) else ktensor_full_impl v0 vadd vmul K.
+
 Definition dense_double (T : dense V) : dense V := T.                (* tensor.double(): self.data (copied) *)
-Definition ktensor_double (K : ktensor V) : option (dense V) := option_map dense_double (ktensor_full_impl v0 vadd vmul K).
+Definition ktensor_double (K : ktensor V) : option (dense V) := option_map dense_double (ktensor_full_code K).
 Definition ttensor_double (T : ttensor V) : dense V := dense_double (ttensor_full_impl v0 vadd vmul T).
 Definition sum_double (parts : list (part V)) : option (dense V) := option_map dense_double (sum_full v0 v1 vadd vmul parts).
 
 Definition ktensor_to_tenmat (K : ktensor V) (rd cd : option (list nat)) (cy : option cyc) : option (tenmat V) :=
-  match ktensor_full_impl v0 vadd vmul K with
+  match ktensor_full_code K with
   | Some D => to_tenmat_req v0 D rd cd cy
   | None => None
   end.
